@@ -621,26 +621,79 @@ pub fn connect_long(addr: SocketAddr) -> std::io::Result<TcpStream> {
     Ok(s)
 }
 
-/// Send requests back to back on one connection, then read the answers.
-/// Returns (client port, answers).
-pub fn pipeline(addr: SocketAddr, reqs: &[Req]) -> (u16, Vec<Option<RawResponse>>) {
-    let Ok(mut s) = connect_long(addr) else {
-        return (0, reqs.iter().map(|_| None).collect());
-    };
-    let port = s.local_addr().map(|a| a.port()).unwrap_or(0);
-    let mut all = Vec::new();
-    for r in reqs {
-        all.extend_from_slice(&r.wire());
+/// One answered (or abandoned) request: the client port of the connection that
+/// carried the answer, the answer, and how many times the request had to be
+/// sent again because the server closed the connection before answering it.
+pub struct Answer {
+    pub port: u16,
+    pub resp: Option<RawResponse>,
+    pub resent: u32,
+}
+
+/// A pipelining client: sends `reqs` in batches of `depth` back to back on one
+/// connection and reads the answers in order.  If the server closes the
+/// connection before answering a request (it may at any time: hyper does so
+/// after a request whose chunked body carried trailer fields, and after a body
+/// it could not drain), the unanswered requests are sent again on a fresh
+/// connection, as any HTTP client has to.  A request is given up after three
+/// connections died on it.
+pub fn run_conn(addr: SocketAddr, reqs: &[Req], depth: usize) -> Vec<Answer> {
+    let mut answers: Vec<Answer> = reqs.iter().map(|_| Answer { port: 0, resp: None, resent: 0 }).collect();
+    let mut next = 0usize; // first unanswered request
+    let mut conn: Option<(TcpStream, RespReader, u16)> = None;
+    while next < reqs.len() {
+        if conn.is_none() {
+            match connect_long(addr) {
+                Ok(s) => {
+                    let port = s.local_addr().map(|a| a.port()).unwrap_or(0);
+                    let rr = RespReader::new(s.try_clone().expect("clone socket"));
+                    conn = Some((s, rr, port));
+                }
+                Err(_) => {
+                    answers[next].resent += 1;
+                    if answers[next].resent > 3 {
+                        next += 1;
+                    }
+                    continue;
+                }
+            }
+        }
+        let (s, rr, port) = conn.as_mut().unwrap();
+        let hi = (next + depth.max(1)).min(reqs.len());
+        let mut all = Vec::new();
+        for r in &reqs[next..hi] {
+            all.extend_from_slice(&r.wire());
+        }
+        let wrote = s.write_all(&all).is_ok();
+        let mut dead = !wrote;
+        let mut k = next;
+        while !dead && k < hi {
+            match rr.read_response(false) {
+                Some(r) => {
+                    answers[k].port = *port;
+                    answers[k].resp = Some(r);
+                    k += 1;
+                }
+                None => dead = true,
+            }
+        }
+        if dead {
+            conn = None;
+            if k < reqs.len() {
+                answers[k].resent += 1;
+                if answers[k].resent > 3 {
+                    k += 1; // give up on this one
+                }
+            }
+        }
+        next = k;
     }
-    if s.write_all(&all).is_err() {
-        return (port, reqs.iter().map(|_| None).collect());
-    }
-    let mut rr = RespReader::new(s);
-    let mut out = Vec::new();
-    for _ in reqs {
-        out.push(rr.read_response(false));
-    }
-    (port, out)
+    answers
+}
+
+/// One request on its own connection.
+pub fn single(addr: SocketAddr, rq: &Req) -> Answer {
+    run_conn(addr, std::slice::from_ref(rq), 1).pop().unwrap()
 }
 
 // ------------------------------------------------------------------ generators
